@@ -306,13 +306,24 @@ def _worker(args):
                     continue
                 try:
                     if held is not None and (can_overlap is None or can_overlap(case)):
-                        todo = _run_overlapped(mod, model, [held, case])
-                        held = None
+                        pair = [held, case]
+                        run = lambda: _run_overlapped(mod, model, pair)
                     elif held is not None:
-                        todo = [(held, mod.run_case(held, model)), (case, mod.run_case(case, model))]
-                        held = None
+                        pair = [held, case]
+                        run = lambda: [(c, mod.run_case(c, model)) for c in pair]
                     else:
-                        todo = [(case, mod.run_case(case, model))]
+                        one = case
+                        run = lambda: [(one, mod.run_case(one, model))]
+                    held = None
+                    todo = run()
+                    if prop in TIMING_PROPS and any(r.mismatch or r.hits for _, r in todo):
+                        # these campaigns run real sockets, real timers and short timeouts: what a busy machine can cause once is
+                        # examined a second time, the same way, before it is believed (a wrong program fails again)
+                        again = run()
+                        if not any(r.mismatch or r.hits for _, r in again):
+                            for _, r in again:
+                                r.tags.append('not-reproduced')
+                            todo = again
                 except Exception:
                     out['errors'].append({'case': case, 'error': traceback.format_exc()[-1500:]})
                     held = None
@@ -332,6 +343,9 @@ def _worker(args):
         out['errors'].append({'case': None, 'error': traceback.format_exc()[-2000:]})
     out['keys'] = [hashlib.md5(repr(x).encode()).hexdigest()[:12] for x in out['keys']]
     return out
+
+
+TIMING_PROPS = {'C01', 'C02', 'C03', 'C06', 'C11', 'C13', 'C19'}      # C14 has its own, stricter repetition
 
 
 # properties whose cases run over scripted sockets in one greenlet: two of them can be run at the same time
